@@ -77,6 +77,18 @@ func c14Enc(v ssa.Value) (c14Codec, ssa.Value) {
 				}
 				return c14Codec{"const:" + s, "string"}, x
 			}
+		case *ssa.Parameter:
+			// the encoded text is handed to a helper (writeStartedAll("true")):
+			// judged at every static call site, which must agree
+			if args := c14ArgsOf(x); len(args) > 0 {
+				first, src := c14Enc(args[0])
+				for _, a := range args[1:] {
+					if cd, _ := c14Enc(a); cd != first {
+						return c14Codec{"mixed:" + first.String() + "/" + cd.String(), c14TypeStr(x.Type())}, x
+					}
+				}
+				return first, src
+			}
 		case *ssa.Call:
 			a := x.Call.Args
 			switch c14FullName(&x.Call) {
@@ -139,6 +151,12 @@ func c14Dec(v ssa.Value) (codec c14Codec, in ssa.Value) {
 			if cv, ok := w.(*ssa.Convert); ok && isBytesOrString(cv.X.Type()) && isBytesOrString(cv.Type()) {
 				w = cv.X
 				continue
+			}
+			if call, ok := w.(*ssa.Call); ok {
+				if a := c14RawCopyArg(call); a != nil { // copyBytes(value): a transport copy
+					w = a
+					continue
+				}
 			}
 			break
 		}
@@ -259,6 +277,7 @@ func (t *c14Tables) specFieldOf(v ssa.Value, depth int) *types.Var {
 
 func runC14Codec(c *kit.Ctx, k *keyer) {
 	const rp = "internal/resumer/boltdbresumer"
+	c14Prog = c.Prog
 	t := &c14Tables{c: c, spec: c.Named(rp, "Spec"), keys: map[string]string{}, known: map[string]string{}, keysVar: c.Global(rp, "Keys")}
 	jsonSpec := c.Named(rp, "jsonSpec")
 	put := c.FuncObj("go.etcd.io/bbolt", "(*Bucket).Put")
@@ -357,52 +376,15 @@ func runC14Codec(c *kit.Ctx, k *keyer) {
 	}
 	c.Floor("R14.4", "keys written by Resumer.Write", len(W), 19)
 
-	// ---- table R: Resumer.Read
-	R := map[string][]c14Row{}
-	getKey := func(v ssa.Value) (string, bool) {
-		call, ok := c14Trace(v).(*ssa.Call)
-		if !ok || kit.CalleeObj(&call.Call) != get {
-			return "", false
-		}
-		key, _, ok := t.keyOf(argOf(&call.Call, 1))
-		return key, ok
-	}
+	// ---- table R: Resumer.Read, extracted through its helpers (inlined view with
+	// parameter binding: the key may be passed as an argument, the destination
+	// field as a pointer)
+	rw := &c14ReadWalk{t: t, get: get, isSpecField: isSpecField, R: map[string][]c14Row{}, visited: map[*ssa.Function]bool{}, stack: map[*ssa.Function]bool{}}
 	for _, fn := range kit.WithAnon(fRead) {
-		kit.Instrs(fn, func(ins ssa.Instruction) {
-			switch x := ins.(type) {
-			case *ssa.Store:
-				fa, ok := x.Addr.(*ssa.FieldAddr)
-				if !ok {
-					return
-				}
-				f := kit.Canon(fa).Field
-				if !isSpecField[f] {
-					return
-				}
-				codec, in := c14Dec(x.Val)
-				if key, ok := getKey(in); ok {
-					R[key] = append(R[key], c14Row{Key: key, Field: f, Codec: codec, Fn: fn, Ins: ins})
-				}
-			case *ssa.Call:
-				switch c14FullName(&x.Call) {
-				case "builtin.copy":
-					f := kit.Canon(x.Call.Args[0])
-					if f.Kind == "field" && isSpecField[f.Field] {
-						if key, ok := getKey(x.Call.Args[1]); ok {
-							R[key] = append(R[key], c14Row{Key: key, Field: f.Field, Codec: c14Codec{"raw", c14TypeStr(f.Field.Type())}, Fn: fn, Ins: ins})
-						}
-					}
-				case "encoding/json.Unmarshal":
-					dst := kit.Canon(x.Call.Args[1]).Strip()
-					if dst.Kind == "fieldaddr" && isSpecField[dst.Field] {
-						if key, ok := getKey(x.Call.Args[0]); ok {
-							R[key] = append(R[key], c14Row{Key: key, Field: dst.Field, Codec: c14Codec{"json", c14TypeStr(dst.Field.Type())}, Fn: fn, Ins: ins})
-						}
-					}
-				}
-			}
-		})
+		rw.walk(fn, nil, 3)
 	}
+	R := rw.R
+	inRead := func(fn *ssa.Function) bool { return rw.visited[fn] || inFn(fn, fRead) }
 	c.Floor("R14.4", "keys read by Resumer.Read", len(R), 19)
 
 	// ---- obligations W <-> R
@@ -570,7 +552,7 @@ func runC14Codec(c *kit.Ctx, k *keyer) {
 		c.Floor("R14.4", "out-of-band Delete sites on torrent resume buckets", nd, 1)
 		ng := 0
 		for _, s := range getSites {
-			if inFn(s.Fn, fRead) {
+			if inRead(s.Fn) {
 				continue
 			}
 			cc := s.Instr.Common()
@@ -615,6 +597,9 @@ func runC14Codec(c *kit.Ctx, k *keyer) {
 
 	// ---- table L: Spec initialisations outside the codec package
 	runC14Literals(c, k, t, specFields, fVersion, W, oobWriters)
+
+	// ---- R14.7 the periodic counter writer covers the whole registry
+	runC14Stats(c, k, t, put, W)
 }
 
 func c14KeyList(m map[string]string) string {
@@ -708,26 +693,63 @@ func runC14Literals(c *kit.Ctx, k *keyer, t *c14Tables, specFields []*types.Var,
 	compact := c.Func("torrent", "(*Session).CompactDatabase")
 	loader := c.Func("torrent", "(*Session).loadExistingTorrent")
 
-	// Spec field stores by root function (outside the codec package)
-	type init struct {
-		f  *types.Var
-		st fieldStore
+	// Spec field stores of a function in its inlined view (outside the codec
+	// package): stores in the function and its closures, and stores in a
+	// same-package helper it calls (metaInfoSpec(mi, port, ..)) with the helper's
+	// parameters replaced by the argument expressions of the call.
+	type specInit struct {
+		st  fieldStore
+		val *kit.Expr
 	}
-	inits := map[*ssa.Function][]init{}
+	isSpec := map[*types.Var]bool{}
 	for _, f := range specFields {
-		for _, st := range fieldStores(c, f) {
-			if inPkg(st.Fn, c, rp) {
-				continue
-			}
-			r := c14RootFn(st.Fn)
-			inits[r] = append(inits[r], init{f, st})
-		}
+		isSpec[f] = true
 	}
-	setIn := func(fn *ssa.Function) map[*types.Var]fieldStore {
-		m := map[*types.Var]fieldStore{}
-		for _, in := range inits[fn] {
-			m[in.f] = in.st
+	specStore := func(ins ssa.Instruction) (*types.Var, *ssa.Store) {
+		st, ok := ins.(*ssa.Store)
+		if !ok {
+			return nil, nil
 		}
+		fa, ok := st.Addr.(*ssa.FieldAddr)
+		if !ok {
+			return nil, nil
+		}
+		if f := kit.Canon(fa).Field; f != nil && isSpec[f] {
+			return f, st
+		}
+		return nil, nil
+	}
+	setMemo := map[*ssa.Function]map[*types.Var]specInit{}
+	setIn := func(fn *ssa.Function) map[*types.Var]specInit {
+		if m, ok := setMemo[fn]; ok {
+			return m
+		}
+		m := map[*types.Var]specInit{}
+		for _, g := range kit.WithAnon(fn) {
+			kit.Instrs(g, func(ins ssa.Instruction) {
+				if f, st := specStore(ins); f != nil {
+					m[f] = specInit{fieldStore{g, st, st.Val}, kit.Canon(st.Val)}
+					return
+				}
+				call, ok := ins.(*ssa.Call)
+				if !ok {
+					return
+				}
+				h := call.Call.StaticCallee()
+				if h == nil || h.Blocks == nil || h == fn || pkgOf(h) != pkgOf(fn) || inPkg(h, c, rp) {
+					return
+				}
+				bind := c14Bind(h, call)
+				kit.Instrs(h, func(i2 ssa.Instruction) {
+					if f, st := specStore(i2); f != nil {
+						if _, have := m[f]; !have {
+							m[f] = specInit{fieldStore{h, st, st.Val}, c14Subst(kit.Canon(st.Val), bind)}
+						}
+					}
+				})
+			})
+		}
+		setMemo[fn] = m
 		return m
 	}
 
@@ -772,27 +794,27 @@ func runC14Literals(c *kit.Ctx, k *keyer, t *c14Tables, specFields []*types.Var,
 	}
 	c.Floor("R14.4", "newTorrent parameters the loader feeds from Spec fields", len(specOfParam), 12)
 
-	// ---- adders: functions (other than the loader) that construct and register
+	// ---- adders: functions (other than the loader) that construct and register.
+	// The constructor may be called through a wrapper (newTorrentFromMetaInfo):
+	// its arguments are then read in the wrapper and expressed in the adder's
+	// frame by parameter substitution.
 	var adders []*ssa.Function
-	for _, s := range sortSites(c.CallSites(newTorrentObj)) {
-		if s.Fn == loader {
+	for _, s := range sortSites(c.CallSites(insertTorrent)) {
+		F := s.Fn
+		if F == loader || fnIn(F, adders...) {
 			continue
 		}
-		registers := false
-		kit.Instrs(s.Fn, func(ins ssa.Instruction) {
-			if kit.CallsAny(ins, insertTorrent) {
-				registers = true
-			}
-		})
-		if !registers {
+		ct := c14FindCtor(F, newTorrentObj, loader)
+		if ct == nil {
 			continue
 		}
-		adders = append(adders, s.Fn)
-		call := s.Instr.(*ssa.Call)
-		set := setIn(s.Fn)
-		for i, a := range call.Call.Args {
+		adders = append(adders, F)
+		call := ct.outer
+		set := setIn(F)
+		for i, a := range ct.inner.Call.Args {
 			fields := specOfParam[i]
-			if len(fields) == 0 || c14ZeroConst(a) {
+			ae := c14Subst(kit.Canon(a), ct.bind)
+			if len(fields) == 0 || (ae.V != nil && c14ZeroConst(ae.V)) {
 				continue
 			}
 			var fs []*types.Var
@@ -801,25 +823,45 @@ func runC14Literals(c *kit.Ctx, k *keyer, t *c14Tables, specFields []*types.Var,
 			}
 			sort.Slice(fs, func(x, y int) bool { return fs[x].Pos() < fs[y].Pos() })
 			for _, f := range fs {
-				key := kit.FuncName(s.Fn) + "/records Spec." + f.Name()
-				st, ok := set[f]
+				key := kit.FuncName(F) + "/records Spec." + f.Name()
+				in, ok := set[f]
 				if !ok {
-					c.Bad("R14.4", key, posOf(call), "the torrent is constructed with %s = %s but the Spec written to the resume database does not set %s: after a restart the torrent reappears without it", newTorrent.Params[i].Name(), kit.Canon(a), f.Name())
+					c.Bad("R14.4", key, posOf(call), "the torrent is constructed with %s = %s but the Spec written to the resume database does not set %s: after a restart the torrent reappears without it", newTorrent.Params[i].Name(), ae, f.Name())
 					continue
 				}
 				// value agreement (single-field parameters only)
-				if len(fields) == 1 && !c14SameSource(st.Val, a, call, fieldOfParam[i]) {
-					c.Bad("R14.4", key, posOf(st.Store), "Spec.%s is recorded as %s but the torrent is constructed with %s = %s: the restarted torrent differs from the running one", f.Name(), kit.Canon(st.Val), newTorrent.Params[i].Name(), kit.Canon(a))
+				if len(fields) == 1 && !c14SameSource(in.val, ae, call, fieldOfParam[i]) {
+					c.Bad("R14.4", key, posOf(in.st.Store), "Spec.%s is recorded as %s but the torrent is constructed with %s = %s: the restarted torrent differs from the running one", f.Name(), in.val, newTorrent.Params[i].Name(), ae)
 					continue
 				}
-				c.OK("R14.4", key, posOf(st.Store), "constructor argument %s and recorded Spec.%s come from the same source", newTorrent.Params[i].Name(), f.Name())
+				c.OK("R14.4", key, posOf(in.st.Store), "constructor argument %s and recorded Spec.%s come from the same source", newTorrent.Params[i].Name(), f.Name())
 			}
 		}
 	}
 	c.Floor("R14.4", "adders (construct + register)", len(adders), 2)
 
 	// ---- CompactDatabase: every field, from a maintained source
-	set := setIn(compact)
+	// inlined view: the literal may be built by a helper (compactSpec(t))
+	set := map[*types.Var]fieldStore{}
+	{
+		isSpec := map[*types.Var]bool{}
+		for _, f := range specFields {
+			isSpec[f] = true
+		}
+		for _, g := range kit.WithAnon(compact) {
+			c.InstrsDeep(g, 2, false, func(ins ssa.Instruction) {
+				st, ok := ins.(*ssa.Store)
+				if !ok {
+					return
+				}
+				if fa, ok := st.Addr.(*ssa.FieldAddr); ok {
+					if f := kit.Canon(fa).Field; f != nil && isSpec[f] {
+						set[f] = fieldStore{ins.Parent(), st, st.Val}
+					}
+				}
+			})
+		}
+	}
 	n := 0
 	for _, f := range specFields {
 		if f == fVersion {
@@ -930,8 +972,7 @@ func c14Storers(st []fieldStore) string {
 // sub-expression of the other (parseTrackers(x) / x, &mi.Info / mi.Info.Bytes),
 // or the recorded value is the field of the constructed torrent that the
 // constructor fills from that very parameter (t.addedAt).
-func c14SameSource(recorded, arg ssa.Value, ctor *ssa.Call, ctorField *types.Var) bool {
-	re, ae := kit.Canon(recorded), kit.Canon(arg)
+func c14SameSource(re, ae *kit.Expr, ctor *ssa.Call, ctorField *types.Var) bool {
 	rs, as := re.String(), ae.String()
 	if rs == as {
 		return true
@@ -945,7 +986,7 @@ func c14SameSource(recorded, arg ssa.Value, ctor *ssa.Call, ctorField *types.Var
 	if contains(ae, rs) || contains(re, as) {
 		return true
 	}
-	if ctorField != nil && re.Kind == "field" && re.Field == ctorField {
+	if ctorField != nil && re.Kind == "field" && re.Field == ctorField && re.Base() != nil && re.Base().V != nil {
 		// base must be the constructed torrent
 		if ex, ok := c14Trace(re.Base().V).(*ssa.Extract); ok && ex.Tuple == ssa.Value(ctor) && ex.Index == 0 {
 			return true
